@@ -84,6 +84,11 @@ def formula(t):
             return neg(('atom', ('lt', b, a)))
     if k == 'call' and t[1] == ('name', 'bool') and len(t[2]) == 1 and not t[3]:
         return formula(t[2][0])
+    if k == 'call' and t[1] == ('name', 'isinstance') and len(t[2]) == 2 and t[2][0][0] == 'ifexp' and not t[3]:
+        # a type test of a conditional value is the conditional of the type tests
+        c, a, b = t[2][0][1], t[2][0][2], t[2][0][3]
+        fc = formula(c)
+        return ('or', (('and', (fc, formula(('call', t[1], (a, t[2][1]), ())))), ('and', (neg(fc), formula(('call', t[1], (b, t[2][1]), ()))))))
     return ('atom', ('truthy', t))
 
 
